@@ -145,6 +145,26 @@ func F_Ctx_Err_Only(ctx context.Context, a int) error {
 	return res1()
 }
 
+func F_Typed_Res(a int) (int, error) {
+	enter("F_Typed_Res", nil, false, a)
+	if Mode == "err" || Mode == "valerr" {
+		return a, Sentinel
+	}
+	return a + 1, nil
+}
+func F_Ctx_Var_Str(ctx context.Context, xs ...string) (types.MalType, error) {
+	enter("F_Ctx_Var_Str", ctx, true, anys(xs)...)
+	return res2("r")
+}
+func F_Set_Vec(a types.Set, b types.Vector) (types.MalType, error) {
+	enter("F_Set_Vec", nil, false, a, b)
+	return res2(b)
+}
+func F_Fn(f types.MalFunc, a types.MalType) (types.MalType, error) {
+	enter("F_Fn", nil, false, f, a)
+	return res2("r")
+}
+
 // Catalogue lists the functions in a fixed order.
 var Catalogue = []struct {
 	Name string
@@ -154,6 +174,7 @@ var Catalogue = []struct {
 	{"F_Map", F_Map}, {"F_List", F_List}, {"F_Var", F_Var}, {"F_Fix_Var", F_Fix_Var}, {"F_Var_Int", F_Var_Int}, {"F_Ctx", F_Ctx},
 	{"F_Ctx_One", F_Ctx_One}, {"F_Ctx_Int_Str", F_Ctx_Int_Str}, {"F_Ctx_Var", F_Ctx_Var}, {"F_Ctx_Fix_Var", F_Ctx_Fix_Var},
 	{"F_NoRes", F_NoRes}, {"F_Ctx_NoRes", F_Ctx_NoRes}, {"F_Err_Only", F_Err_Only}, {"F_Ctx_Err_Only", F_Ctx_Err_Only},
+	{"F_Typed_Res", F_Typed_Res}, {"F_Ctx_Var_Str", F_Ctx_Var_Str}, {"F_Set_Vec", F_Set_Vec}, {"F_Fn", F_Fn},
 }
 
 // Closure returns a function literal (registered through CallOverrideFN): its runtime
